@@ -108,6 +108,21 @@ Proof.
 Qed.
 Print Assumptions C03_mint_int64_refuted.
 
+(* block headers (outside the literal scope of the property: not a part of a transaction).  The library writes a header body
+   FLAT; with the single Babbage/Conway VRF result that is 14 items, the shape of no era (known finding
+   C03-praos-header-body-flat): rejected by the Conway header_body rule (10 items, nested operational_cert and
+   protocol_version), accepted once that one rule is replaced by the flat single-VRF rule. *)
+Theorem C03_praos_header_flat_refuted : exists v,
+  wfv HeaderBodyPraos v = true /\
+  cddl_ok_bytes conway_env (RRef N_header_body) (enc HeaderBodyPraos v) = false /\
+  judge_class_header (RRef N_header_body) (enc HeaderBodyPraos v) = 4.
+Proof.
+  exists (VList [VNat 1; VNat 2; VNull; VBytes (repeat 1 32); VBytes (repeat 2 32); VList [VBytes [7]; VBytes (repeat 3 80)];
+                 VNat 100; VBytes (repeat 4 32); VBytes (repeat 5 32); VNat 6; VNat 7; VBytes (repeat 8 64); VNat 9; VNat 0]).
+  vm_compute. repeat split.
+Qed.
+Print Assumptions C03_praos_header_flat_refuted.
+
 (* the value-INDEPENDENT form of the statement, kept visible: a boolean structural comparison [refines] between schema
    and rule alone, true on all pairs.  NOT proved, and not provable for these schemas: they are wider than the Conway
    rules exactly where the API admits CDDL-invalid values (u32 indices, Int vs int64), and lower bounds (positive_coin,
